@@ -92,7 +92,10 @@ def arg_for(rng, ann, sig):
                 return {"o": rng.randrange(NOBJ)}
             return {"fun": rng.choice(list(u6.FUNS))}
     sv = "any" if ann in (None, "any") else tuple(ann)
-    if rng.random() < 0.15:
+    if rng.random() < 0.12:
+        good = [t for t in u6.TYPED if sv == "any" or all(any(uni.atom_table()[x][y] for x in sv) for y in t)]
+        if good and rng.random() < 0.8:
+            return {"t": list(rng.choice(good))}
         return {"t": list(rng.choice(list(u6.TYPED)))}
     return {"o": literal_for(rng, sv)}
 
@@ -188,7 +191,7 @@ def gen_call(rng, sig):
             pos.append(arg_for(rng, vp["ann"], sig))
     elif rng.random() < 0.06:
         pos.append({"o": rng.randrange(NOBJ)})  # too many positionals
-    if rng.random() < 0.12:
+    if rng.random() < 0.08:
         star = list(rng.choice(list(u6.ELEMS)))
     for p in posl[n_pos:] + [p for p in ps if p["kind"] == "ko"]:
         if p["default"] is None or rng.random() < 0.5:
@@ -202,7 +205,7 @@ def gen_call(rng, sig):
             kw.append([f"x{j}", arg_for(rng, vk["ann"], sig)])
     elif rng.random() < 0.05:
         kw.append(["zz", {"o": 0}])  # unexpected keyword
-    if rng.random() < 0.1:
+    if rng.random() < 0.06:
         starkw = list(rng.choice(list(u6.ELEMS)))
     rng.shuffle(kw)
     return {"pos": pos, "kw": kw, "star": star, "starkw": starkw}
